@@ -42,11 +42,16 @@ def main():
         now = ("caught" if re_.get("caught") else "MISSED") if re_ else "-"
         if now != "caught" and other:
             now = "caught by " + "/".join(other)
+        if m.get("disputed") and not now.startswith("caught"):
+            now = "not judged (open corner, see meta.json)"
+        if m.get("obsolete"):
+            now = "obsolete (see meta.json)"
         rows.append((sid, pid, "caught" if first.get("caught") else "MISSED", now, mech, first_sentence(m.get("needs_to_manifest", ""), sid)))
     n = len(rows)
     c1 = sum(r[2] == "caught" for r in rows)
     c2 = sum(r[3].startswith("caught") or (r[3] == "-" and r[2] == "caught") for r in rows)
-    out = [f"{n} changes kept (each: patch applies to HEAD, suite 267 passed / same 6 failures, demo exits 0 unchanged and non-zero changed). First run of the property's own quick check: **{c1}/{n} caught**; after strengthening: **{c2}/{n} caught**.", "", "| seed | property | first run | now | witness mechanism | what the change is / needs |", "|---|---|---|---|---|---|"]
+    rest = [f"{r[0]}: {r[3]}" for r in rows if not (r[3].startswith("caught") or (r[3] == "-" and r[2] == "caught"))]
+    out = [f"{n} changes kept (each: patch applies to HEAD, suite 267 passed / same 6 failures, demo exits 0 unchanged and non-zero changed). First run of the property's own quick check: **{c1}/{n} caught**; after strengthening: **{c2}/{n} caught** (by its own check or, where the table says so, by the check of the property whose machinery the change really touches). Not caught: {'; '.join(rest) or 'none'}.", "", "| seed | property | first run | now | witness mechanism | what the change is / needs |", "|---|---|---|---|---|---|"]
     for r in rows:
         out.append("| " + " | ".join(r) + " |")
     table = "\n".join(out)
